@@ -20,21 +20,22 @@ structure Inv (s : PS) : Prop where
   closing_dead  : (s.stop = .closing ∨ s.stop = .returned) → s.tombDead = true
   returned_all  : s.stop = .returned → ∀ x ∈ s.registered, x ∈ s.closed
   wait_closed   : (s.fb = .waitAccept ∨ s.fb = .done) → s.listenerOpen = false
-  exited_closed : s.acc = .exited → s.listenerOpen = false
+  closed_fb     : s.listenerOpen = false → (s.fb = .waitAccept ∨ s.fb = .done)
+  exited_fb     : s.acc = .exited → s.fb ≠ .waitDying
   idle_alive    : s.stop = .idle → s.tombDying = false
   dying_fb      : s.tombDying = false → s.fb = .waitDying
 
 theorem inv_init : Inv {} := by
-  refine ⟨?_, ?_, ?_, ?_, ?_, ?_, ?_⟩ <;> simp
+  refine ⟨?_, ?_, ?_, ?_, ?_, ?_, ?_, ?_⟩ <;> simp
 
 theorem inv_step (s : PS) (a : Action) (s' : PS) (hi : Inv s) (h : step s a = some s') : Inv s' := by
-  obtain ⟨h1, h2, h3, h4, h5, h6, h7⟩ := hi
+  obtain ⟨h1, h2, h3, h4, h4', h5, h6, h7⟩ := hi
   cases a with
   | acceptOk c =>
     simp only [step] at h
     split at h
     · rename_i hc; cases h
-      refine ⟨?_, h2, h3, h4, ?_, h6, h7⟩
+      refine ⟨?_, h2, h3, h4, h4', ?_, h6, h7⟩
       · intro ht; have := h1 ht; simp_all
       · intro he; simp at he
     · cases h
@@ -42,15 +43,28 @@ theorem inv_step (s : PS) (a : Action) (s' : PS) (hi : Inv s) (h : step s a = so
     simp only [step] at h
     split at h
     · rename_i hc; cases h
-      refine ⟨?_, h2, h3, h4, ?_, h6, h7⟩
+      refine ⟨?_, h2, h3, h4, h4', ?_, h6, h7⟩
       · intro ht; exact ⟨rfl, (h1 ht).2⟩
-      · intro _; simpa using hc.2
+      · intro _ hw
+        have := h4' (by simpa using hc.2)
+        simp_all
+    · cases h
+  | acceptTransient =>
+    simp only [step] at h
+    split at h
+    · rename_i hc
+      split at h
+      · cases h; exact ⟨h1, h2, h3, h4, h4', h5, h6, h7⟩
+      · rename_i hfb; cases h
+        refine ⟨?_, h2, h3, h4, h4', ?_, h6, h7⟩
+        · intro ht; have := (h1 ht).2; simp_all
+        · intro _; exact hfb
     · cases h
   | dialOk u =>
     simp only [step] at h
     split at h
     · rename_i c hc; cases h
-      refine ⟨?_, h2, h3, h4, ?_, h6, h7⟩
+      refine ⟨?_, h2, h3, h4, h4', ?_, h6, h7⟩
       · intro ht; have := (h1 ht).1; simp_all
       · intro he; simp at he
     · cases h
@@ -58,7 +72,7 @@ theorem inv_step (s : PS) (a : Action) (s' : PS) (hi : Inv s) (h : step s a = so
     simp only [step] at h
     split at h
     · rename_i c hc; cases h
-      refine ⟨?_, h2, ?_, h4, ?_, h6, h7⟩
+      refine ⟨?_, h2, ?_, h4, h4', ?_, h6, h7⟩
       · intro ht; have := (h1 ht).1; simp_all
       · intro hr x hx; exact List.mem_cons_of_mem _ (h3 hr x hx)
       · intro he; simp at he
@@ -67,7 +81,7 @@ theorem inv_step (s : PS) (a : Action) (s' : PS) (hi : Inv s) (h : step s a = so
     simp only [step] at h
     split at h
     · rename_i c u hc; cases h
-      refine ⟨?_, h2, ?_, h4, ?_, h6, h7⟩
+      refine ⟨?_, h2, ?_, h4, h4', ?_, h6, h7⟩
       · intro ht; have := (h1 ht).1; simp_all
       · intro hr
         -- impossible: stop returned ⇒ tomb dead ⇒ accept loop exited, but it is registering
@@ -79,35 +93,40 @@ theorem inv_step (s : PS) (a : Action) (s' : PS) (hi : Inv s) (h : step s a = so
     simp only [step] at h
     split at h
     · rename_i hc; cases h
-      refine ⟨h1, h2, h3, ?_, h5, h6, ?_⟩
+      refine ⟨h1, h2, h3, ?_, ?_, ?_, h6, ?_⟩
       · intro hf; simp at hf
+      · intro hl; have := h4' hl; simp_all
+      · intro _; simp
       · intro hd; simp_all
     · cases h
   | fbClose =>
     simp only [step] at h
     split at h
     · rename_i hc; cases h
-      refine ⟨?_, h2, h3, ?_, ?_, h6, ?_⟩
+      refine ⟨?_, h2, h3, ?_, ?_, ?_, h6, ?_⟩
       · intro ht; exact ⟨(h1 ht).1, rfl⟩
       · intro _; rfl
-      · intro _; rfl
+      · intro _; exact Or.inl rfl
+      · intro _; simp
       · intro hd; have := h7 hd; simp_all
     · cases h
   | fbJoin =>
     simp only [step] at h
     split at h
     · rename_i hc; cases h
-      refine ⟨?_, ?_, h3, ?_, h5, h6, ?_⟩
-      · intro _; exact ⟨hc.2, h5 hc.2⟩
+      refine ⟨?_, ?_, h3, ?_, ?_, ?_, h6, ?_⟩
+      · intro _; exact ⟨hc.2, h4 (Or.inl hc.1)⟩
       · intro _; rfl
-      · intro _; exact h5 hc.2
+      · intro _; exact h4 (Or.inl hc.1)
+      · intro _; exact Or.inr rfl
+      · intro _; simp
       · intro hd; have := h7 hd; simp_all
     · cases h
   | stopBegin =>
     simp only [step] at h
     split at h
     · rename_i hc; cases h
-      refine ⟨h1, ?_, ?_, h4, h5, ?_, ?_⟩
+      refine ⟨h1, ?_, ?_, h4, h4', h5, ?_, ?_⟩
       · intro hs; simp at hs
       · intro hs; simp at hs
       · intro hs; simp at hs
@@ -117,7 +136,7 @@ theorem inv_step (s : PS) (a : Action) (s' : PS) (hi : Inv s) (h : step s a = so
     simp only [step] at h
     split at h
     · rename_i hc; cases h
-      refine ⟨h1, ?_, ?_, h4, h5, ?_, h7⟩
+      refine ⟨h1, ?_, ?_, h4, h4', h5, ?_, h7⟩
       · intro _; exact hc.2
       · intro hs; simp at hs
       · intro hs; simp at hs
@@ -126,7 +145,7 @@ theorem inv_step (s : PS) (a : Action) (s' : PS) (hi : Inv s) (h : step s a = so
     simp only [step] at h
     split at h
     · rename_i hc; cases h
-      refine ⟨h1, ?_, ?_, h4, h5, ?_, h7⟩
+      refine ⟨h1, ?_, ?_, h4, h4', h5, ?_, h7⟩
       · intro _; exact h2 (Or.inl hc)
       · intro _ x hx; exact List.mem_append_left _ hx
       · intro hs; simp at hs
@@ -173,5 +192,19 @@ example :
     let s := run {} [.acceptOk 1, .stopBegin, .fbWake, .dialOk 2, .fbClose, .register, .acceptErr,
                      .fbJoin, .stopWake, .stopClose]
     s.stop = .returned ∧ s.registered = [1, 2] ∧ s.closed = [1, 2] := by decide
+
+/-- **C07 (an accept error that is not the shutdown does not end the proxy).** While the proxy
+has not been asked to stop, a failed `Accept` (out of file descriptors, aborted connection)
+leaves the accept loop accepting and the listener open: the proxy keeps serving. -/
+theorem C07_transient_accept_error_keeps_accepting (s : PS) (h : s.acc = .accepting) (hl : s.listenerOpen = true)
+    (hf : s.fb = .waitDying) : step s .acceptTransient = some s := by
+  simp [step, h, hl, hf]
+
+/-- … and the stop handshake stays correct whatever accept errors happen meanwhile
+(`C03_down` quantifies over schedules that contain them). -/
+example :
+    let s := run {} [.acceptTransient, .acceptOk 1, .dialOk 2, .register, .acceptTransient, .stopBegin, .fbWake,
+                     .acceptTransient, .fbClose, .fbJoin, .stopWake, .stopClose]
+    s.stop = .returned ∧ s.acc = .exited ∧ s.closed = [1, 2] := by decide
 
 end Toxi.Proxy
